@@ -61,6 +61,23 @@ class _FailingAwaitable:
         yield  # pragma: no cover
 
 
+class TypeObjRef:
+    """stands for the engine's own GraphQLObjectType object of that name (a type resolver may return the type instead of its name)"""
+
+    def __init__(self, name):
+        self.name = name
+
+
+def materialise(v, engine):
+    if isinstance(v, TypeObjRef):
+        return engine._schema.find_type(v.name)
+    if isinstance(v, dict):
+        return {k: materialise(x, engine) for k, x in v.items()}
+    if isinstance(v, list):
+        return [materialise(x, engine) for x in v]
+    return v
+
+
 UNIVERSE = [
     ("None", lambda: None), ("True", lambda: True), ("False", lambda: False),
     ("0", lambda: 0), ("1", lambda: 1), ("-1", lambda: -1), ("2^31-1", lambda: 2 ** 31 - 1), ("2^31", lambda: 2 ** 31),
@@ -94,12 +111,16 @@ UNIVERSE = [
     ("fraction-7/2", lambda: Fraction(7, 2)), ("fraction-3/1", lambda: Fraction(3, 1)),
     ("cancellederror", lambda: asyncio.CancelledError()), ("generatorexit", lambda: GeneratorExit("done")),
     ("keyboardinterrupt", lambda: KeyboardInterrupt()),
+    ("dict-typeobj-O", lambda: {"_typename": TypeObjRef("O"), "x": 1, "y": "q"}),
+    ("dict-typeobj-O2", lambda: {"_typename": TypeObjRef("O2"), "x": 1, "z": 5}),
+    ("dict-typeobj-O3", lambda: {"_typename": TypeObjRef("O3"), "x": 1}),
+    ("dict-typeobj-Query", lambda: {"_typename": TypeObjRef("Query"), "x": 1}),
     ("coroutine-raising", _raising_coro), ("awaitable-failing", _FailingAwaitable),
     ("mappingproxy", lambda: types.MappingProxyType({"_typename": "O", "x": 1, "y": "q"})),
 ]
 TE_LABELS = ["te-bare", "te-path", "te-locations", "te-located", "raise-te-located"]
 CORE = ["None", "1", "'abc'", "1.5", "True", "nan", "2^31", "dict-typename-O", "dict-typename-unknown", "exception",
-        "list", "'RED'", "'nullify'", "pyenum-RED", "decimal-almost-1", "coroutine-raising", "awaitable-failing"]
+        "list", "'RED'", "'nullify'", "pyenum-RED", "decimal-almost-1", "coroutine-raising", "awaitable-failing", "dict-typeobj-O3", "dict-typeobj-O2"]
 UDICT = dict(UNIVERSE)
 
 
@@ -211,6 +232,7 @@ def nulls_in(v, path, acc):
 
 def check_case(schema, engine, kind, fname, ftype, label, value, out, shape, config="default"):
     text = "{ %s%s }" % (fname, selection_for(kind))
+    value = materialise(value, engine)
     scn = Scenario(root={}, overrides={(fname,): value})
     out["counts"]["evaluations"] += 1
     clause = None
